@@ -160,7 +160,18 @@ class _A1:
         return sd
 
     def _mentions(self, e: ast.AST, names: Set[str]) -> bool:
-        return any(isinstance(n, ast.Name) and n.id in names for n in ast.walk(e))
+        cache = self.__dict__.setdefault("_names_of", {})
+        got = cache.get(id(e))
+        if got is None or got[0] is not e:
+            got = cache[id(e)] = (e, frozenset(n.id for n in ast.walk(e) if isinstance(n, ast.Name)))
+        return not got[1].isdisjoint(names)
+
+    def _walk_cached(self, st: ast.AST):
+        cache = self.__dict__.setdefault("_walk_of", {})
+        got = cache.get(id(st))
+        if got is None or got[0] is not st:
+            got = cache[id(st)] = (st, list(ast.walk(st)))
+        return got[1]
 
     def _cond(self, f, t, pol, if_of, aliases, index_aliases, facts, q):
         ifn = if_of.get(id(t))
@@ -214,14 +225,14 @@ class _A1:
     def _stmt(self, f, st, aliases, index_aliases, facts, q, violations, seen_v):
         # opaque loop that checks the index of q against the key index
         if isinstance(st, (ast.For, ast.While)):
-            for n in ast.walk(st):
+            for n in self._walk_cached(st):
                 if isinstance(n, ast.If) and any(isinstance(s, ast.Raise) for s in n.body):
                     t = norm(n.test)
                     if ".equals(" in t and any(f"{a}.index" in t for a in aliases) and isinstance(st, ast.For) \
                             and "_key_index" in norm(st.iter):
                         facts.add("IDX")
         self._note_index_drops(st, aliases, facts)
-        calls = [n for n in ast.walk(st) if isinstance(n, ast.Call)]
+        calls = [n for n in self._walk_cached(st) if isinstance(n, ast.Call)]
         # 1. validators / delegations establish facts (processed before consumption inside the same statement)
         for c in calls:
             cn = call_name(c) or norm(c.func)
@@ -307,7 +318,7 @@ class _A1:
                 need = {"IDX"}              # raises unless the chunk lengths add up to the array length
             self._require(f, c, need, facts, q, violations, seen_v, f"passed to {cn}")
         # subscripts of the parameter itself (positional take before validation)
-        for n in ast.walk(st):
+        for n in self._walk_cached(st):
             if isinstance(n, ast.Subscript) and isinstance(n.ctx, ast.Load) and isinstance(n.value, ast.Name) \
                     and n.value.id in aliases and n.value.id == q:
                 self._require(f, n, {"LEN", "IDX"}, facts, q, violations, seen_v, f"positional take {norm(n)}")
@@ -348,13 +359,13 @@ class _A1:
             return
 
         dropped = _DropView(facts)
-        for n in ast.walk(st):
+        for n in self._walk_cached(st):
             if isinstance(n, ast.Assign):
                 tg = []
                 for t in n.targets:
                     tg.extend(t.elts if isinstance(t, (ast.Tuple, ast.List)) else [t])
                 conv = any(isinstance(c, ast.Call) and (call_name(c) or norm(c.func)).split(".")[-1] in self.INDEX_DROPPING
-                           for c in ast.walk(n.value))
+                           for c in self._walk_cached(n.value))
                 for t in tg:
                     if conv and isinstance(t, ast.Subscript) and isinstance(t.value, ast.Name) and t.value.id in aliases:
                         dropped.add(t.value.id)
@@ -375,16 +386,16 @@ class _A1:
         # scalar attributes of a slice / array (start, stop, step, dtype, shape ...) are not views of the rows
         names_outside_scalar_attrs = set()
         scalar_bases = set()
-        for n in ast.walk(e):
+        for n in self._walk_cached(e):
             if isinstance(n, ast.Attribute) and n.attr in ("start", "stop", "step", "dtype", "shape", "ndim", "size", "name") \
                     and isinstance(n.value, ast.Name):
                 scalar_bases.add(id(n.value))
-        for n in ast.walk(e):
+        for n in self._walk_cached(e):
             if isinstance(n, ast.Name) and id(n) not in scalar_bases:
                 names_outside_scalar_attrs.add(n.id)
         if scalar_bases and not names_outside_scalar_attrs:
             return False
-        for n in ast.walk(e):
+        for n in self._walk_cached(e):
             if isinstance(n, ast.Call):
                 cn = call_name(n) or norm(n.func)
                 short = cn.split(".")[-1]
